@@ -88,12 +88,15 @@ CHECKS.update({
              text='TLC checks on the specification that the transducers accept exactly the valid texts and keep the value, and that Parse(Enc(v)) = v; '
                   'the real codec must then produce exactly the specification bytes for every word / value, report keys in document order, and '
                   'agree with encoding/json on the same inputs. Go VALUES (nil, bool, int, float, strings of any bytes, slices, []byte, maps with '
-                  'string/int keys, pointers, struct types with tag names, omitempty, string, "-", unexported and embedded fields built with '
-                  'reflect.StructOf) are covered by GoEnc.tla: Marshal/MarshalEscaped must write exactly GoMarshal(v, esc). Decoding INTO typed '
+                  'string/int keys, typed slices and maps, json.Number, pointers, struct types with tag names, omitempty, string, "-", unexported and '
+                  'embedded fields built with reflect.StructOf, and values of types with MarshalJSON / MarshalText / RedirectMarshalJSON / '
+                  'TrustMarshalJSON) are covered by GoEnc.tla: Marshal/MarshalEscaped/MarshalIndent/Encoder must write exactly GoMarshal(v, esc), '
+                  'on the enumerated universe and on recorded random values validated by TLC (TraceApi!GoEncEv). Decoding INTO typed '
                   'values is covered by GoDec.tla (decode.go\'s value/array/object/literalStore as operators: null handling, remembered type '
                   'errors vs errors that stop decoding, exact-then-folded field matching, tags, ",string", embedded structs, allocated pointers, '
                   'maps merged into, base64, int64 range, json.Number under UseNumber): Unmarshal, Decoder.Decode and Decoder.UseNumber+Decode '
-                  'must store exactly the value GoDec says and report an error exactly when it says. Only the token stream API is covered '
+                  'must store exactly the value GoDec says and report an error exactly when it says, on the enumerated universe and on '
+                  'recorded random (type, text) pairs validated by TLC (TraceApi!GoDecEv). Only the token stream API is covered '
                   'differentially alone (stated in evidence).',
              note=TB + '; the differential part trusts the standard library of the installed Go release'),
 })
